@@ -119,11 +119,11 @@ def run(chk):
     names = T.tlc_trees(chk, 4, 100000, chk.seed, which="names")
     items = []
     for n, t in enumerate(names):
-        for s in ("anon", "adversarial", "adversarial", "some", "members"):
+        for s in ("anon", "adversarial", "adversarial", "some", "members", "exotic"):
             items.append(("n%d_%s%d" % (n, s, len(items)), T.assign_ids(t, s, r)))
     for n, t in enumerate(shapes):
         nested_sep = any(x["sep"] and x["kids"] for x, _ in T.nodes(t))
-        for s in (("adversarial", "dup") if n % 3 and not nested_sep else ("anon", "adversarial", "actions", "members")):
+        for s in (("adversarial", "dup", "exotic") if n % 3 and not nested_sep else ("anon", "adversarial", "actions", "members")):
             if s == "actions" and not any(T.kind(x["cls"]) in ("action", "menu") for x, _ in T.nodes(t)):
                 continue
             items.append(("s%d_%s%d" % (n, s, len(items)), T.assign_ids(t, s, r)))
@@ -194,7 +194,7 @@ def run(chk):
             if el["el"] == "action" and el["name"] == "separator":
                 probs.append("an action is named `separator`: <addaction name=\"separator\"/> is the reserved separator entry, the reference does not denote it")
         root_name = ui["root"]["name"]
-        for ref in set(re.findall(r"this->ui_->(\w+)", run_.get("header") or "")):
+        for ref in set(re.findall(r"this->ui_->([^\s\-(),;.\[\]&|<>=!?:+*/]+)", run_.get("header") or "")):
             tg = decl.get(ref, [])
             if len(tg) != 1 or ref == root_name:
                 probs.append("ui_->%s resolves to %d declared non-root objects" % (ref, len(tg) if ref != root_name else 0))
